@@ -399,6 +399,7 @@ def _slot_sem(ctx: RuleContext, p: Program, rid: str) -> int:
             return super().expr(e, env)
 
     n = 0
+    inplace: dict[str, Any] = {}
     for c in classes:
         g, st = c.attrs['_get'], c.attrs['__set__']
         init = c.attrs.get('__init__')
@@ -408,6 +409,7 @@ def _slot_sem(ctx: RuleContext, p: Program, rid: str) -> int:
         values = ['V', ''] if 'str' in c.name or 'string' in c.name else [5, 0]
         problem = ''
         cases = 0
+        replaced: list[str] = []
         for has_child in ((False, True) if optional else (True,)):
             for val in ([None] if optional else []) + values:
                 it = Interp()
@@ -447,6 +449,8 @@ def _slot_sem(ctx: RuleContext, p: Program, rid: str) -> int:
                             problem = problem or f'{where_}: the existing child keeps its old value'
                     elif not (isinstance(slot, possem.Obj) and slot.f.get('fresh') and slot.f.get('value') == val):
                         problem = problem or f'{where_}: the slot holds neither the updated child nor a fresh one'
+                    else:
+                        replaced.append(where_)
                 if has_child and slot is not child and child.f['value'] != 'OLD':
                     problem = problem or f'{where_}: the replaced child was modified as well'
         # an assigned value that EQUALS the current one is still written: equal values are not equal texts (Decimal('5.00') == Decimal('5'),
@@ -473,6 +477,16 @@ def _slot_sem(ctx: RuleContext, p: Program, rid: str) -> int:
         n += 1
         ctx.check(not problem, rid, f'models.internal.value_properties:{c.name}', 'set then get', f'{c.name}: {problem}: a value written through '
                   f'the property is not the value read back (or lands in the wrong node)', c.where, note=f'{cases} (child, value) cases')
+        inplace[c.name] = (not replaced, replaced, c)
+    # sibling agreement: the value properties update the token that is there (`current.value = value`); one that builds a new token instead
+    # detaches the parsed one -- a reference the caller holds (x.raw_date, file.tokens) silently stops being part of the document
+    keeps = [k for k, v in inplace.items() if v[0]]
+    for k, (ok_, where_list, cls_) in inplace.items():
+        if not ok_ and len(keeps) >= 2:
+            ctx.fail(rid, f'models.internal.value_properties:{k}: in-place update', 'replaces the token that is there',
+                     f'{k}.__set__ ({where_list[0]}) puts a NEW token into the slot instead of assigning the value to the token that is there, '
+                     f'as {sorted(keeps)} do: the parsed token is taken out of the document, so the document no longer consists of the same '
+                     f'tokens and later edits through a reference to it are lost', cls_.where)
     return n
 
 
